@@ -38,8 +38,8 @@ CLAIMED["C09"] = (
     "enabled/disabled iff its last mention says so and no later all-switch cleared it), enable/disable disjointness, the ladder "
     "(ignore silences code and category; explicit code beats category; category beats all-switch; defaults otherwise), config "
     "'disable beats enable', merge (command-line all-switch resets the config's lists, otherwise lists combine), ignore silences "
-    "after any merge, path-scoped ignores never unload, --verbose listing = loaded set. Model tied to settings.py/loader.py by "
-    "running both on ~20k (config, argv) pairs (exhaustive to length 3/4 over 17 options, every config/CLI split) and by CLI runs.",
+    "after any merge, path-scoped ignores never unload, --verbose listing = loaded set; a code may be spelled NNN or FURBNNN (code_spelling_irrelevant, any three digits) and on the settings the whole parse_config_file model returns no disabled classifier is left enabled (config_file_disable_beats_enable). Model tied to settings.py/loader.py by "
+    "running both on ~20k (config, argv) pairs (exhaustive to length 3/4 over 20 options incl. two spellings of one check and TOML integers, every config/CLI split) and by CLI runs.",
     COMMON_NOTE
     + "Model (hand-written): lean/RefurbVerif/Model/Settings.lean mirrors parse_command_line_args, parse_config_file, Settings.merge, "
     "should_load_check. The README's rules are transcribed independently in harness/props/c09.py:selected as the oracle; where the "
@@ -54,7 +54,7 @@ CLAIMED["C14"] = (
     "options (any interleaving = options first, files in order), per-option config/CLI equivalence (quiet, load, ignore, enable, "
     "disable, python_version, format, sort_by, mypy_args, each under the stated 'only mention' guard), and totality: lex, "
     "parse_command_line_args, parse_config_file on every TOML table and load_settings end only in a value or a refurb:-style "
-    "ValueError (`Clean`), proved through every bind of the parser. Model tied to settings.py by ~3k (argv, config bytes) pairs per "
+    "ValueError (`Clean`), proved through every bind of the parser; the same command line behaves the same with no config file and with an empty one (no_config_eq_empty_config) and contradictory all-switches are refused whatever the config situation (contradictory_switches_refused). Model tied to settings.py by ~3k (argv, config bytes) pairs per "
     "run incl. an ill-typed stream (every key x 14 TOML kinds) and confirmed through the CLI.",
     COMMON_NOTE
     + "Modelled, not verified: tomllib and the file system (the model receives the outcome of reading+parsing the file); Unicode digit "
@@ -68,9 +68,9 @@ CLAIMED["C13"] = (
     "Theorems over messages, file names and report lists of any length (text as List Char): colour only adds SGR escape sequences "
     "(stripAnsi (formatColor d) = formatPlain d, incl. the four-back-tick diff colouring); every rendered diagnostic is one line; "
     "the lines of the report are exactly the rendered items in order (split . join = id), for all three formats; plain rendering "
-    "parses back to its fields (round trip); GitHub prints the same line/column numbers; hint iff a diagnostic and not quiet; exit "
+    "parses back to its fields (round trip); the GitHub annotation parses back to its fields too (github_roundtrip: message verbatim) and both formats carry the same line, column, code and message (formats_agree); hint iff a diagnostic and not quiet; exit "
     "status: exit_iff_partial (no --debug dumps) + exit_iff_refuted (with --debug the full statement is false: known finding). "
-    "Model tied to main.py by ~1600 in-process format/sort comparisons per run and by CLI runs (plain, github, colour via pty).",
+    "Model tied to main.py by ~1600 in-process format/sort comparisons per run, an in-process oracle on format_errors itself (colour = plain + SGR; each GitHub annotation carries its diagnostic's fields verbatim; hint rule) and by CLI runs (plain, github, colour via pty).",
     COMMON_NOTE
     + "Modelled, not verified: Path.resolve()/relative_to for the GitHub format (the model takes the relative path as input); "
     "terminal behaviour (only SGR sequences are considered); sort order is shared with C11 (Model/Report.lean:leItem).",
@@ -142,7 +142,9 @@ CLAIMED["C02"] = (
 CLAIMED["C04"] = (
     "Theorems for syntax trees of any depth and width: if every child edge that occurs is followed with multiplicity 1 the visit "
     "sequence equals the node list (walk_eq_nodes; also necessary: once_requires_one; a dropped field hides its subtree, a doubled "
-    "field doubles it), every subscribed check is called once per node of its kinds (calls_once) and an unsubscribed type never. "
+    "field doubles it), every subscribed check is called once per node of its kinds (calls_once) and an unsubscribed type never; a construct put into ANY "
+    "nesting context built from the reference schema is handed to the checks exactly as at module level, between the context's own "
+    "nodes (plug: nested_occurrence_seen_once, nested_visit_count, conforms_plug). "
     "The edge table of refurb's traverser is regenerated on every run by EXECUTING every visit method on a corpus with recording "
     "visitors, and kernel-checked to be all-ones on the reference schema (mypy's own traverser fields) minus the committed alias "
     "fields, with no extra edges (every_node_once). Tied to the code further by an identity probe (all 83 node types subscribed; "
